@@ -391,7 +391,7 @@ fn drive5(ctx: &mut Ctx, desc: &str, f: &dyn Fn(Option<u64>) -> Result<Out, Stri
 macro_rules! for_ns {
     ($ctx:expr, [$($n:ty),*], [$($tn:ty),*], $N:ident => $body:block) => {
         $( { type $N = $n; $body } )*
-        if $ctx.thorough() || $ctx.only.is_some() { $( { type $N = $tn; $body } )* }
+        { $( { type $N = $tn; $body } )* }
     };
 }
 
